@@ -138,6 +138,10 @@ def one_point(cx, api, size, injector, point, preexisting, old, ref_new, ref_pla
     shutil.rmtree(d, ignore_errors=True)
     os.makedirs(d)
     dest = os.path.join(d, "dest.%s" % EXT[api])
+    if idx % 7 == 3 and injector in ("fsize", "shim"):
+        # a destination whose name is as long as a file name may be: the temporary sibling (<name>.<ext>tmp) cannot be created
+        dest = os.path.join(d, "n" * (254 - len(EXT[api])) + "." + EXT[api])
+        cx.count("destination-with-255-byte-name")
     if preexisting:
         with open(dest, "wb") as f:
             f.write(old)
